@@ -187,7 +187,7 @@ func runBounds(c *Ctx, rule string, fns []*ssa.Function) int {
 func propC10(c *Ctx) {
 	c.Explanation = "Decides the memory-safety clause with a bounds prover over SSA (no solver, nothing is executed): (R10.1) every index/slice expression on a byte sequence in the ABI decoder (dig.scan, bint.Decode) is proven 0 <= low <= high <= len on every path from the guards present, treating every word read from the data as an arbitrary 64-bit value: an unsigned→int conversion is the identity only when the operand was range-tested against a length first; (R10.2) the only explicit panics reachable from (*Result).Scan are the default arms of kind switches and every store to atype.kind is one of the constants those switches handle; (R10.3) every recursive call of scan descends to a strictly smaller type (t.elem or an element of t.fields); (R10.4) no allocation in the decoder is sized by a value read from the data (rows are created one per loop iteration that passed a length guard; nothing is reserved up front from a claimed count). The polynomial work bound for nested dynamic arrays that alias one tail is run-time and not decided."
 	w := c.W
-	scan := w.Fn("dig", "scan")
+	scan, _, scanT := scanAnchor(w)
 	rscan := w.Fn("dig", "(*Result).Scan")
 	res := NewResolver(w)
 
@@ -271,11 +271,11 @@ func propC10(c *Ctx) {
 	// ---- R10.3 -----------------------------------------------------------
 	c.Rule("R10.3", "every recursive call of scan descends to a strictly smaller type", 4)
 	fElem, fFields := w.Field("dig", "atype", "elem"), w.Field("dig", "atype", "fields")
-	tParam := scan.Params[3]
+	tParam := scanT
 	nr := 0
 	for _, call := range callsToFn(scan, scan) {
 		nr++
-		arg := call.Call.Args[3]
+		arg := call.Call.Args[paramIndexOf(scanT)]
 		// a local copy of the type (`elem := *t.elem`, hoisted out of the loop)
 		for i := 0; i < 4; i++ {
 			u, isU := stripConv(arg).(*ssa.UnOp)
@@ -1010,4 +1010,40 @@ func setsLenOfRecvTo(h *ssa.Function) int {
 		return 0
 	}
 	return k
+}
+
+// scanAnchor: the recursive ABI decoder: dig.scan, or – when it became a method of a small state
+// value – the function (*Result).Scan calls that calls itself; with its data ([]byte) and type
+// (atype) parameters, wherever they stand.
+func scanAnchor(w *World) (fn *ssa.Function, input, typ *ssa.Parameter) {
+	fn = w.FnOpt("dig", "scan")
+	if fn == nil {
+		rs := w.Fn("dig", "(*Result).Scan")
+		var cands []*ssa.Function
+		for _, ci := range callsIn(rs) {
+			h := staticCallee(ci)
+			if h == nil || h.Blocks == nil || h.Pkg != rs.Pkg {
+				continue
+			}
+			if len(callsToFn(h, h)) > 0 {
+				cands = append(cands, h)
+			}
+		}
+		if len(cands) != 1 {
+			fatalf("anchor: function dig.scan not found")
+		}
+		fn = cands[0]
+	}
+	for _, p := range fn.Params {
+		if isByteSlice(p.Type()) && input == nil {
+			input = p
+		}
+		if repoNamedIs(p.Type(), "dig", "atype") && typ == nil {
+			typ = p
+		}
+	}
+	if input == nil || typ == nil {
+		fatalf("anchor: dig.scan has no ([]byte, atype) parameters")
+	}
+	return
 }
